@@ -431,7 +431,7 @@ func execC16(x *X) {
 			caseID := fmt.Sprintf("%s|correct|%s|%s|raw=%v", d.Name, o.typ, strings.Join(op.L, ","), o.raw)
 			x.Case(caseID + "|lib")
 			if !bytes.Equal(before, after) {
-				x.Violate("source-changed:correct:"+FirstDiff(before, after), "correcting changed the source envelope; %s\n  history: %s", DiffDetail(before, after), H0)
+				x.Violate("source-changed:correct:"+GDiff(before, after), "correcting changed the source envelope; %s\n  history: %s", DiffDetail(before, after), H0)
 				return
 			}
 			if refuse != "" {
@@ -468,7 +468,7 @@ func execC16(x *X) {
 			caseID := fmt.Sprintf("%s|replicate", d.Name)
 			x.Case(caseID + "|lib")
 			if !bytes.Equal(before, after) {
-				x.Violate("source-changed:replicate:"+FirstDiff(before, after), "replicating changed the source envelope; %s\n  history: %s", DiffDetail(before, after), H0)
+				x.Violate("source-changed:replicate:"+GDiff(before, after), "replicating changed the source envelope; %s\n  history: %s", DiffDetail(before, after), H0)
 				return
 			}
 			if lerr != nil {
@@ -495,12 +495,12 @@ func execC16(x *X) {
 			x.Probe("result-mutated-source-checked")
 			if op.S == "editsource" {
 				if got := Marshal(res); !bytes.Equal(rb, got) {
-					x.Violate("result-changed-by-source-mutation:"+FirstDiff(rb, got), "mutating the source (%s) changed the previously returned result; %s\n  history: %s", what, DiffDetail(rb, got), H0)
+					x.Violate("result-changed-by-source-mutation:"+GDiff(rb, got), "mutating the source (%s) changed the previously returned result; %s\n  history: %s", what, DiffDetail(rb, got), H0)
 					return
 				}
 			} else {
 				if got := srcSnap(); !bytes.Equal(sb, got) {
-					x.Violate("source-changed-by-result-mutation:"+op.S+":"+FirstDiff(sb, got), "mutating the result (%s) changed the source envelope: they share memory; %s\n  history: %s", what, DiffDetail(sb, got), H0)
+					x.Violate("source-changed-by-result-mutation:"+op.S+":"+GDiff(sb, got), "mutating the result (%s) changed the source envelope: they share memory; %s\n  history: %s", what, DiffDetail(sb, got), H0)
 					return
 				}
 			}
@@ -558,7 +558,7 @@ func c16common(x *X, what string, srcTree *JV, res *gobl.Envelope, H0 string) (*
 		if err := cp.Calculate(); err != nil {
 			bad("recalc-fails", "the result cannot be recalculated: %v", err)
 		} else if b2 := Marshal(cp); !bytes.Equal(b1, b2) {
-			bad("not-fresh:"+FirstDiff(b1, b2), "the result is not freshly calculated; %s", DiffDetail(b1, b2))
+			bad("not-fresh:"+GDiff(b1, b2), "the result is not freshly calculated; %s", DiffDetail(b1, b2))
 		}
 		if err := cp.Validate(); err != nil && errKey(err) == "digest" {
 			bad("digest", "the result's digest does not match its document: %v", err)
@@ -855,7 +855,7 @@ func c16agree(x *X, what string, src *gobl.Envelope, o *c16opts, lres *gobl.Enve
 		}
 		if err == nil {
 			if got := normaliseResult(out); got != want {
-				x.Violate(what+":entry-points-differ:"+ep+":"+FirstDiff([]byte(want), []byte(got)), "entry point %s produced a different document than the library; %s\n  history: %s", ep, DiffDetail([]byte(want), []byte(got)), H0)
+				x.Violate(what+":entry-points-differ:"+ep+":"+GDiff([]byte(want), []byte(got)), "entry point %s produced a different document than the library; %s\n  history: %s", ep, DiffDetail([]byte(want), []byte(got)), H0)
 				return
 			}
 			x.Probe("entry-points-agree")
